@@ -1448,3 +1448,396 @@ Proof.
   split; [unfold laid_groups; cbv zeta; now rewrite map_length, lay_groups_length|].
   rewrite footer_num_rows. unfold laid_groups. cbv zeta. now rewrite lay_groups_rows.
 Qed.
+
+(** * The specification decoder's own page loop finds the pages [walk_pages] finds *)
+
+Definition page_matches (p : page) (hp : hpage) : Prop :=
+  p_offset p = h_offset hp /\ p_hlen p = h_hlen hp /\ p_comp p = h_comp hp /\
+  p_uncomp p = nat_of_field 2 (h_header hp) /\
+  p_type p = zdef (get_int 1 (h_header hp)) (-1) /\
+  N.of_nat (p_nvalues p) = header_nvalues (h_header hp).
+
+Lemma decode_page_skel rest lf codec dict off p :
+  decode_page rest lf codec dict off = Some p ->
+  exists h hlen after b,
+    decode_header rest = Some (h, hlen, after) /\ sub after 0 (nat_of_field 3 h) = Some b /\
+    page_matches p {| h_offset := off; h_hlen := hlen; h_comp := nat_of_field 3 h; h_header := h |}.
+Proof.
+  unfold decode_page. intros H.
+  destruct (decode_header rest) as [[[h hlen] after]|]; [|discriminate].
+  destruct (sub after 0 (nat_of_field 3 h)) as [body|] eqn:Esub; [|discriminate].
+  exists h, hlen, after, body. split; [reflexivity|]. split; [exact Esub|].
+  unfold page_matches, header_nvalues. cbn [h_offset h_hlen h_comp h_header].
+  destruct (zdef (get_int 1 h) (-1) =? 2)%Z eqn:E2.
+  - destruct (get 7 h) as [dh|]; [|discriminate].
+    destruct (decompress codec body); [|discriminate].
+    destruct (decode_values _ _ _ _ _ _); [|discriminate].
+    inversion H. subst p. cbn [p_offset p_hlen p_comp p_uncomp p_type p_nvalues]. repeat split; try reflexivity. rewrite nat_of_n_of_field. lia.
+  - destruct (zdef (get_int 1 h) (-1) =? 0)%Z eqn:E0.
+    + assert (E3 : (zdef (get_int 1 h) (-1) =? 3)%Z = false) by lia. rewrite E3.
+      destruct (get 5 h) as [dh|]; [|discriminate].
+      destruct (decompress codec body); [|discriminate].
+      destruct (levels_v1 _ _ _) as [[rep d1]|]; [|discriminate].
+      destruct (levels_v1 _ _ _) as [[def d2]|]; [|discriminate].
+      destruct (decode_values _ _ _ _ _ _); [|discriminate].
+      inversion H. subst p. cbn [p_offset p_hlen p_comp p_uncomp p_type p_nvalues]. repeat split; try reflexivity. rewrite nat_of_n_of_field. lia.
+    + destruct (zdef (get_int 1 h) (-1) =? 3)%Z eqn:E3; [|discriminate].
+      destruct (get 8 h) as [dh|]; [|discriminate].
+      destruct (levels_v2 _ _ _ _) as [[rep b1]|]; [|discriminate].
+      destruct (levels_v2 _ _ _ _) as [[def b2]|]; [|discriminate].
+      destruct (if match get_bool 7 dh with Some b => b | None => true end then decompress codec b2 else Some b2); [|discriminate].
+      destruct (decode_values _ _ _ _ _ _); [|discriminate].
+      inversion H. subst p. cbn [p_offset p_hlen p_comp p_uncomp p_type p_nvalues]. repeat split; try reflexivity. rewrite nat_of_n_of_field. lia.
+Qed.
+
+Lemma decode_pages_cons f b0 r0 lf codec dict off :
+  decode_pages (S f) (b0 :: r0) lf codec dict off =
+  match decode_page (b0 :: r0) lf codec dict off with
+  | None => None
+  | Some p =>
+      match decode_pages f (skipn (p_hlen p + p_comp p) (b0 :: r0)) lf codec
+              (if (p_type p =? 2)%Z then p_values p else dict) (off + N.of_nat (p_hlen p + p_comp p)) with
+      | Some ps => Some (p :: ps)
+      | None => None
+      end
+  end.
+Proof. reflexivity. Qed.
+
+Lemma walk_pages_cons f b0 r0 off :
+  walk_pages (S f) (b0 :: r0) off =
+  match decode_header (b0 :: r0) with
+  | None => None
+  | Some (h, hlen, after) =>
+      match sub after 0 (nat_of_field 3 h) with
+      | None => None
+      | Some _ =>
+          match walk_pages f (skipn (hlen + nat_of_field 3 h) (b0 :: r0)) (off + N.of_nat (hlen + nat_of_field 3 h)) with
+          | Some ps => Some ({| h_offset := off; h_hlen := hlen; h_comp := nat_of_field 3 h; h_header := h |} :: ps)
+          | None => None
+          end
+      end
+  end.
+Proof. reflexivity. Qed.
+
+Lemma decode_pages_walk : forall fuel rest lf codec dict off ps,
+  decode_pages fuel rest lf codec dict off = Some ps ->
+  exists hs, walk_pages fuel rest off = Some hs /\ Forall2 page_matches ps hs.
+Proof.
+  induction fuel as [|f IH]; intros rest lf codec dict off ps H; [discriminate|].
+  destruct rest as [|b0 r0].
+  - inversion H. exists []. split; [reflexivity|constructor].
+  - rewrite decode_pages_cons in H. rewrite walk_pages_cons.
+    destruct (decode_page (b0 :: r0) lf codec dict off) as [p|] eqn:Ep; [|discriminate].
+    destruct (decode_page_skel _ _ _ _ _ _ Ep) as (h & hlen & after & body & Hh & Hs & Hm).
+    rewrite Hh, Hs.
+    destruct Hm as (Mo & Ml & Mc & Mu & Mt & Mn). cbn [h_offset h_hlen h_comp h_header] in *.
+    rewrite Ml, Mc in H.
+    destruct (decode_pages f _ lf codec _ _) as [ps'|] eqn:Eps; [|discriminate].
+    inversion H. subst ps.
+    destruct (IH _ _ _ _ _ _ Eps) as (hs & Hw & Hf). rewrite Hw.
+    eexists. split; [reflexivity|]. constructor; [|exact Hf].
+    unfold page_matches. cbn [h_offset h_hlen h_comp h_header]. repeat split; assumption.
+Qed.
+
+(** * What a successful [parse] looks like *)
+
+Lemma Forall2_nth_r {A B} (R : A -> B -> Prop) l1 l2 i y :
+  Forall2 R l1 l2 -> nth_error l2 i = Some y -> exists x, nth_error l1 i = Some x /\ R x y.
+Proof.
+  intros H. revert i. induction H as [|a b l1 l2 Hab _ IH]; intros [|i] Hn; cbn in Hn; try discriminate.
+  - inversion Hn. subst. exists a. split; [reflexivity|exact Hab].
+  - apply IH. exact Hn.
+Qed.
+
+Lemma Forall2_filter {A B} (R : A -> B -> Prop) (f : A -> bool) (g : B -> bool) l1 l2 :
+  Forall2 R l1 l2 -> (forall x y, R x y -> f x = g y) -> Forall2 R (filter f l1) (filter g l2).
+Proof.
+  intros H Hfg. induction H as [|a b l1 l2 Hab _ IH]; [constructor|].
+  cbn [filter]. rewrite (Hfg a b Hab). destruct (g b); [constructor; assumption|assumption].
+Qed.
+
+Lemma Forall2_combine_forallb {A B} (R : A -> B -> Prop) (f : A * B -> bool) l1 l2 :
+  Forall2 R l1 l2 -> (forall x y, R x y -> f (x, y) = true) -> forallb f (combine l1 l2) = true.
+Proof.
+  intros H Hf. induction H as [|a b l1 l2 Hab _ IH]; [reflexivity|].
+  cbn [combine forallb]. now rewrite (Hf a b Hab), IH.
+Qed.
+
+Lemma Forall2_compose {A B C} (R : A -> B -> Prop) (S : C -> B -> Prop) (T : A -> C -> Prop) l1 l2 l3 :
+  Forall2 R l1 l2 -> Forall2 S l3 l2 -> (forall a b c, R a b -> S c b -> T a c) -> Forall2 T l1 l3.
+Proof.
+  intros H. revert l3. induction H as [|a b l1 l2 Hab _ IH]; intros l3 H3 HT; inversion H3; subst; constructor.
+  - eapply HT; eassumption.
+  - apply IH; assumption.
+Qed.
+
+Definition chunk_decoded (file : fbytes) (cc : tval) (ch : chunk) : Prop :=
+  exists md data,
+    get 3 cc = Some md /\ c_meta ch = md /\ c_chunk ch = cc /\ c_start ch = chunk_start md /\
+    fsub file (chunk_start md) (nat_of_field 7 md) = Some data /\
+    decode_pages (S (nat_of_field 7 md)) data (c_leaf ch) (zdef (get_int 4 md) 0) [] (chunk_start md) = Some (c_pages ch).
+
+Lemma decode_chunk_inv file lf cc ch : decode_chunk file lf cc = Some ch -> chunk_decoded file cc ch.
+Proof.
+  unfold decode_chunk. intros H.
+  destruct (get 3 cc) as [md|] eqn:Eg; [|discriminate].
+  destruct (fsub file (chunk_start md) (nat_of_field 7 md)) as [data|] eqn:Ef; [|discriminate].
+  destruct (decode_pages _ _ _ _ _ _) as [ps|] eqn:Ep; [|discriminate].
+  inversion H. subst ch. exists md, data. cbn [c_meta c_chunk c_start c_pages c_leaf]. repeat split; try reflexivity; assumption.
+Qed.
+
+Lemma decode_chunks_inv file : forall ls ccs chs,
+  decode_chunks file ls ccs = Some chs -> Forall2 (chunk_decoded file) ccs chs.
+Proof.
+  induction ls as [|lf ls IH]; intros [|cc ccs] chs H; cbn [decode_chunks] in H; try discriminate.
+  - inversion H. constructor.
+  - destruct (decode_chunk file lf cc) as [ch|] eqn:E1; [|discriminate].
+    destruct (decode_chunks file ls ccs) as [chs'|] eqn:E2; [|discriminate].
+    inversion H. subst chs. constructor; [now apply decode_chunk_inv in E1|now apply IH].
+Qed.
+
+Definition group_decoded (file : fbytes) (gt : tval) (grp : row_group) : Prop :=
+  g_meta grp = gt /\ exists ccs, get_list 1 gt = Some ccs /\ Forall2 (chunk_decoded file) ccs (g_chunks grp).
+
+Lemma decode_groups_inv file ls : forall gts grps,
+  decode_groups file ls gts = Some grps -> Forall2 (group_decoded file) gts grps.
+Proof.
+  induction gts as [|gt gts IH]; intros grps H; cbn [decode_groups] in H.
+  - inversion H. constructor.
+  - destruct (get_list 1 gt) as [ccs|] eqn:E0; [|discriminate].
+    destruct (decode_chunks file ls ccs) as [chs|] eqn:E1; [|discriminate].
+    destruct (decode_groups file ls gts) as [rest|] eqn:E2; [|discriminate].
+    inversion H. subst grps. constructor; [|now apply IH].
+    split; [reflexivity|]. exists ccs. split; [exact E0|]. cbn [g_chunks]. now apply decode_chunks_inv in E1.
+Qed.
+
+(** * The decoder's verdict on a laid out file: only complaints about page contents *)
+
+Import String.StringSyntax.
+Open Scope string_scope.
+
+(* the checks of [verify] that depend on the decoded bodies (levels, values, checksums) *)
+Definition body_codes : list String.string :=
+  ["uncompressed_page_size"; "page_crc"; "encodings_list"; "v2_num_rows"; "v2_num_nulls"; "v2_page_starts_mid_row"; "level_range";
+   "column_type"; "row_group_num_rows"; "page_location_first_row_index"].
+
+Lemma in_check b code name : In code (check b name) -> b = false /\ code = name.
+Proof. unfold check. destruct b; cbn; intros H; [tauto|]. destruct H as [H|[]]. auto. Qed.
+
+Ltac split_in H :=
+  repeat match type of H with
+         | In _ (_ ++ _) => apply in_app_or in H; destruct H as [H|H]
+         end.
+
+Lemma check_chunk_body ch code :
+  (sum (map p_nvalues (data_pages ch)) =? nat_of_field 5 (c_meta ch))%nat = true ->
+  (sumN (map (fun p => p_hlen p + p_comp p)%nat (c_pages ch)) =? n_of_field 7 (c_meta ch))%N = true ->
+  (sumN (map (fun p => p_hlen p + p_uncomp p)%nat (c_pages ch)) =? n_of_field 6 (c_meta ch))%N = true ->
+  (match data_pages ch with p :: _ => (p_offset p =? n_of_field 9 (c_meta ch))%N | [] => true end) = true ->
+  (match c_pages ch with
+   | p :: _ => if (p_type p =? 2)%Z then (p_offset p =? n_of_field 11 (c_meta ch))%N
+               else ((n_of_field 11 (c_meta ch) =? 0) || (n_of_field 9 (c_meta ch) <=? n_of_field 11 (c_meta ch)))%N
+   | [] => true end) = true ->
+  In code (check_chunk ch) -> In code body_codes.
+Proof.
+  intros H1 H2 H3 H4 H5 H. unfold check_chunk in H. cbv zeta in H.
+  rewrite H1, H2, H3, H4, H5 in H. cbn [check app] in H.
+  split_in H; apply in_check in H; destruct H as [_ ->]; cbn [In body_codes]; auto 12.
+Qed.
+
+Lemma Forall2_map_eq {A B C} (R : A -> B -> Prop) (f : A -> C) (g : B -> C) l1 l2 :
+  Forall2 R l1 l2 -> (forall x y, R x y -> f x = g y) -> map f l1 = map g l2.
+Proof. intros H Hfg. induction H as [|a b l1 l2 Hab _ IH]; [reflexivity|]. cbn [map]. now rewrite (Hfg a b Hab), IH. Qed.
+
+Lemma sum_nat_N (l : list nat) : N.of_nat (sum l) = fold_left N.add (map N.of_nat l) 0%N.
+Proof.
+  unfold sum. change 0%N with (N.of_nat 0). generalize 0%nat. induction l as [|x l IH]; intros a; [reflexivity|].
+  cbn [fold_left map]. rewrite IH. f_equal. lia.
+Qed.
+
+Lemma data_pages_matches ps hs :
+  Forall2 page_matches ps hs ->
+  Forall2 page_matches (filter (fun p => negb (p_type p =? 2)%Z) ps) (filter is_data_page hs).
+Proof.
+  intros H. apply Forall2_filter; [exact H|].
+  intros p hp (_ & _ & _ & _ & Ht & _). unfold is_data_page. now rewrite Ht.
+Qed.
+
+Lemma chunk_checks_pass ch hs md :
+  c_meta ch = md -> Forall2 page_matches (c_pages ch) hs ->
+  sumN (map (fun hp => (h_hlen hp + h_comp hp)%nat) hs) = n_of_field 7 md ->
+  sumN (map (fun hp => (h_hlen hp + nat_of_field 2 (h_header hp))%nat) hs) = n_of_field 6 md ->
+  fold_left N.add (map (fun hp => header_nvalues (h_header hp)) (filter is_data_page hs)) 0%N = n_of_field 5 md ->
+  match filter is_data_page hs with hp :: _ => h_offset hp = n_of_field 9 md | [] => True end ->
+  match hs with
+  | hp :: _ => if is_data_page hp then n_of_field 11 md = 0%N else h_offset hp = n_of_field 11 md
+  | [] => True
+  end ->
+  forall code, In code (check_chunk ch) -> In code body_codes.
+Proof.
+  intros Hmd Hps S7 S6 S5 O9 O11 code. subst md.
+  pose proof (data_pages_matches _ _ Hps) as Hd. fold (data_pages ch) in Hd.
+  apply check_chunk_body.
+  - apply Nat.eqb_eq. rewrite nat_of_n_of_field, <- S5.
+    rewrite <- (Forall2_map_eq _ (fun p => N.of_nat (p_nvalues p)) _ _ _ Hd) by (intros p hp (_ & _ & _ & _ & _ & Hn); exact Hn).
+    rewrite <- (map_map p_nvalues N.of_nat), <- sum_nat_N. lia.
+  - apply N.eqb_eq. rewrite <- S7. f_equal. apply (Forall2_map_eq _ _ _ _ _ Hps).
+    intros p hp (_ & Hl & Hc & _). now rewrite Hl, Hc.
+  - apply N.eqb_eq. rewrite <- S6. f_equal. apply (Forall2_map_eq _ _ _ _ _ Hps).
+    intros p hp (_ & Hl & _ & Hu & _). now rewrite Hl, Hu.
+  - destruct Hd as [|p hp dps hps (Ho & _) _]; [reflexivity|]. apply N.eqb_eq. now rewrite Ho, O9.
+  - destruct Hps as [|p hp ps hps (Ho & _ & _ & _ & Ht & _) _]; [reflexivity|].
+    unfold is_data_page in O11. rewrite <- Ht in O11.
+    destruct (p_type p =? 2)%Z; cbn [negb] in O11.
+    + apply N.eqb_eq. now rewrite Ho.
+    + rewrite O11. reflexivity.
+Qed.
+
+Lemma Forall2_len {A B} (R : A -> B -> Prop) l1 l2 : Forall2 R l1 l2 -> length l1 = length l2.
+Proof. induction 1; cbn [length]; congruence. Qed.
+
+Lemma oindex_checks_pass ch oi locs hsd :
+  get_list 1 oi = Some locs -> Forall2 loc_points_at locs hsd -> Forall2 page_matches (data_pages ch) hsd ->
+  forall code, In code (check_offset_index ch oi) -> In code body_codes.
+Proof.
+  intros Hget Hl Hp code H. unfold check_offset_index in H. rewrite Hget in H. cbv zeta in H.
+  assert (HT : Forall2 (fun loc p => n_of_field 1 loc = p_offset p /\ nat_of_field 2 loc = (p_hlen p + p_comp p)%nat)
+                 locs (data_pages ch)).
+  { apply (Forall2_compose _ _ _ _ _ _ Hl Hp). intros loc hp p (L1 & L2) (P1 & P2 & P3 & _). split; [congruence|lia]. }
+  assert (E1 : (length locs =? length (data_pages ch))%nat = true) by (apply Nat.eqb_eq; eapply Forall2_len; eauto).
+  assert (E2 : forallb (fun pl : tval * page => (n_of_field 1 (fst pl) =? p_offset (snd pl))%N) (combine locs (data_pages ch)) = true).
+  { apply (Forall2_combine_forallb _ _ _ _ HT). intros loc p (T1 & _). cbn [fst snd]. now apply N.eqb_eq. }
+  assert (E3 : forallb (fun pl : tval * page => (nat_of_field 2 (fst pl) =? p_hlen (snd pl) + p_comp (snd pl))%nat) (combine locs (data_pages ch)) = true).
+  { apply (Forall2_combine_forallb _ _ _ _ HT). intros loc p (_ & T2). cbn [fst snd]. now apply Nat.eqb_eq. }
+  rewrite E1, E2, E3 in H. cbn [check app] in H.
+  apply in_check in H. destruct H as [_ ->]. cbn [In body_codes]. auto 12.
+Qed.
+
+(* the complaints [check_indexes] raises for one chunk *)
+Definition index_codes (file : fbytes) (ch : chunk) : list String.string :=
+  match offset_index_of file ch with
+  | Some oi => check_offset_index ch oi
+  | None => if (nat_of_field 5 (c_chunk ch) =? 0)%nat then [] else ["offset_index_unreadable"]
+  end.
+
+Lemma decoded_chunk_codes fi i j g c gt cc md ch :
+  file_ok fi = true ->
+  nth_error (fi_groups fi) i = Some g -> nth_error (gi_chunks g) j = Some c ->
+  footer_chunk (footer_tree fi) i j gt cc md ->
+  chunk_decoded (mk_fbytes (layout_bytes fi)) cc ch ->
+  forall code, In code (check_chunk ch ++ index_codes (mk_fbytes (layout_bytes fi)) ch) -> In code body_codes.
+Proof.
+  intros Hok Hg Hc Hfc (md' & data & Hget & Hmeta & Hcc & _ & Hsub & Hdec) code Hin.
+  assert (E : md' = md).
+  { destruct Hfc as (gts & ccs & _ & _ & _ & _ & H3). congruence. }
+  rewrite E in Hget, Hmeta, Hsub, Hdec. clear E md'.
+  destruct (layout_chunk_pages fi i j g c gt cc md Hok Hg Hc Hfc) as (_ & Hsub' & Hwalk).
+  rewrite Hsub' in Hsub. inversion Hsub. subst data. clear Hsub.
+  destruct (decode_pages_walk _ _ _ _ _ _ _ Hdec) as (hs & Hw & Hm).
+  rewrite Hwalk in Hw. inversion Hw. subst hs. clear Hw.
+  destruct (layout_chunk_sums fi i j g c gt cc md Hok Hg Hc Hfc) as (S7 & S6 & S5 & O9 & O11).
+  apply in_app_or in Hin. destruct Hin as [Hin|Hin].
+  - eapply chunk_checks_pass; eauto.
+  - unfold index_codes, offset_index_of in Hin. rewrite Hcc in Hin.
+    destruct (layout_offset_index fi i j g c gt cc md Hok Hg Hc Hfc) as (raw & oi & locs & Hraw & Hoi & Hlocs & Hpts & _).
+    destruct (nat_of_field 5 cc =? 0)%nat; [destruct Hin|].
+    rewrite Hraw, Hoi in Hin.
+    eapply oindex_checks_pass; [exact Hlocs|exact Hpts| |exact Hin].
+    apply data_pages_matches. exact Hm.
+Qed.
+
+Lemma in_concat_map {A} (f : A -> list String.string) l code :
+  In code (concat (map f l)) -> exists i x, nth_error l i = Some x /\ In code (f x).
+Proof.
+  intros H. apply in_concat in H. destruct H as (y & Hy & Hc). apply in_map_iff in Hy.
+  destruct Hy as (x & <- & Hx). apply In_nth_error in Hx. destruct Hx as [i Hi]. eauto.
+Qed.
+
+Lemma nth_error_some_lt {A} (l : list A) i : (i < length l)%nat -> exists x, nth_error l i = Some x.
+Proof. intros H. destruct (nth_error l i) eqn:E; [eauto|]. apply nth_error_None in E. lia. Qed.
+
+Lemma decoded_group_codes fi i g gt grp :
+  file_ok fi = true -> nth_error (fi_groups fi) i = Some g ->
+  (exists gts, get_list 4 (footer_tree fi) = Some gts /\ nth_error gts i = Some gt) ->
+  group_decoded (mk_fbytes (layout_bytes fi)) gt grp ->
+  forall code,
+    In code (check_group grp ++ concat (map (index_codes (mk_fbytes (layout_bytes fi))) (g_chunks grp))) ->
+    In code body_codes.
+Proof.
+  intros Hok Hg Hgt (Hmeta & ccs & Hccs & Hchs) code Hin.
+  destruct (layout_row_group fi i g gt Hok Hg Hgt) as (ccs' & Hccs' & Hlen & _ & _ & _ & T7 & T6).
+  assert (ccs' = ccs) by congruence. subst ccs'.
+  (* every decoded chunk: only body codes *)
+  assert (Hchunk : forall j ch, nth_error (g_chunks grp) j = Some ch ->
+            forall code, In code (check_chunk ch ++ index_codes (mk_fbytes (layout_bytes fi)) ch) -> In code body_codes).
+  { intros j ch Hj. destruct (Forall2_nth_r _ _ _ _ _ Hchs Hj) as (cc & Hcc & Hdec).
+    assert (Hjl : (j < length (gi_chunks g))%nat) by (rewrite <- Hlen; apply nth_error_Some; congruence).
+    destruct (nth_error_some_lt _ _ Hjl) as [c Hc].
+    destruct Hdec as (md & data & Hget & Hrest).
+    apply (decoded_chunk_codes fi i j g c gt cc md ch Hok Hg Hc).
+    - destruct Hgt as (gts & Hg4 & Hgi). exists gts, ccs. repeat split; assumption.
+    - exists md, data. split; assumption. }
+  assert (Hmd : forall id, map (fun ch => n_of_field id (c_meta ch)) (g_chunks grp) = map (fun cc => n_of_field id (md_of cc)) ccs).
+  { intros id. symmetry. apply (Forall2_map_eq _ _ _ _ _ Hchs).
+    intros cc ch (md & data & Hget & Hm & _). unfold md_of. now rewrite Hget, Hm. }
+  apply in_app_or in Hin. destruct Hin as [Hin|Hin].
+  - unfold check_group in Hin. cbv zeta in Hin. rewrite Hmeta in Hin.
+    rewrite (Hmd 7%Z), (Hmd 6%Z), T7, T6, !N.eqb_refl in Hin. cbn [check] in Hin. rewrite !app_nil_r in Hin.
+    apply in_app_or in Hin. destruct Hin as [Hin|Hin].
+    + apply in_concat_map in Hin. destruct Hin as (j & ch & Hj & Hc).
+      apply (Hchunk j ch Hj). apply in_or_app. now left.
+    + apply in_check in Hin. destruct Hin as [_ ->]. cbn [In body_codes]. auto 12.
+  - apply in_concat_map in Hin. destruct Hin as (j & ch & Hj & Hc).
+    apply (Hchunk j ch Hj). apply in_or_app. now right.
+Qed.
+
+Theorem layout_verify_only_body_codes fi f codes :
+  file_ok fi = true -> verify (layout_bytes fi) = Some (f, codes) ->
+  forall code, In code codes -> In code body_codes.
+Proof.
+  intros Hok Hv code Hin. unfold verify in Hv. cbv zeta in Hv.
+  set (file := mk_fbytes (layout_bytes fi)) in *.
+  destruct (parse file) as [pf|] eqn:Ep; [|discriminate]. inversion Hv. subst f codes. clear Hv.
+  unfold parse in Ep. subst file. rewrite (layout_footer_found fi Hok) in Ep.
+  destruct (get_list 2 (footer_tree fi)) as [schema|]; [|discriminate].
+  destruct (leaves_of schema) as [ls|]; [|discriminate].
+  rewrite footer_row_groups in Ep.
+  destruct (decode_groups _ ls _) as [groups|] eqn:Eg; [|discriminate].
+  inversion Ep. subst pf. clear Ep.
+  apply decode_groups_inv in Eg.
+  destruct (layout_file_rows fi) as (gts & Hgts & Hlen & Hrows).
+  rewrite footer_row_groups in Hgts. inversion Hgts. subst gts. clear Hgts.
+  assert (Hgroup : forall i grp, nth_error groups i = Some grp ->
+            forall code, In code (check_group grp ++ concat (map (index_codes (mk_fbytes (layout_bytes fi))) (g_chunks grp))) ->
+                         In code body_codes).
+  { intros i grp Hi. destruct (Forall2_nth_r _ _ _ _ _ Eg Hi) as (gt & Hgt & Hdec).
+    assert (Hil : (i < length (fi_groups fi))%nat) by (rewrite <- Hlen; apply nth_error_Some; congruence).
+    destruct (nth_error_some_lt _ _ Hil) as [g Hg].
+    apply (decoded_group_codes fi i g gt grp Hok Hg); [|exact Hdec].
+    exists (map fst (laid_groups fi)). split; [apply footer_row_groups|exact Hgt]. }
+  apply in_app_or in Hin. destruct Hin as [Hin|Hin].
+  - unfold check_file in Hin. cbn [f_groups f_meta] in Hin.
+    assert (Hm : map (fun g => n_of_field 3 (g_meta g)) groups = map (fun gt => n_of_field 3 gt) (map fst (laid_groups fi))).
+    { symmetry. apply (Forall2_map_eq _ _ _ _ _ Eg). intros gt grp (Hm & _). now rewrite Hm. }
+    rewrite Hm, Hrows, N.eqb_refl in Hin. cbn [check] in Hin. rewrite app_nil_r in Hin.
+    apply in_concat_map in Hin. destruct Hin as (i & grp & Hi & Hc).
+    apply (Hgroup i grp Hi). apply in_or_app. now left.
+  - unfold check_indexes in Hin. cbn [f_groups] in Hin.
+    apply in_concat_map in Hin. destruct Hin as (i & grp & Hi & Hc).
+    apply (Hgroup i grp Hi). apply in_or_app. right. exact Hc.
+Qed.
+
+(** the verdict on a laid out file is empty as soon as the decoder accepts the
+    page contents (decodes every body and raises none of the content complaints) *)
+Definition bodies_accepted (fi : file_in) : Prop :=
+  exists f codes, verify (layout_bytes fi) = Some (f, codes) /\ forall c, In c codes -> ~ In c body_codes.
+
+Theorem layout_verify_modulo_bodies fi :
+  file_ok fi = true -> bodies_accepted fi -> exists f, verify (layout_bytes fi) = Some (f, []).
+Proof.
+  intros Hok (f & codes & Hv & Hb). exists f. rewrite Hv. do 2 f_equal.
+  destruct codes as [|c cs]; [reflexivity|]. exfalso.
+  apply (Hb c (or_introl eq_refl)). apply (layout_verify_only_body_codes fi f (c :: cs) Hok Hv). now left.
+Qed.
+
+Close Scope string_scope.
